@@ -103,5 +103,7 @@ pub fn frame(a: &Snap, b: &Snap, pos: (bool, usize, u32, u32), pos2: Option<(boo
 }
 
 pub fn same(a: &Snap, b: &Snap) -> bool {
-    a.hdr == b.hdr && a.side == b.side
+    // element-wise: `[u64; 4] == [u64; 4]` compiles to a byte-wise memcmp loop
+    a.hdr[0] == b.hdr[0] && a.hdr[1] == b.hdr[1] && a.hdr[2] == b.hdr[2] && a.hdr[3] == b.hdr[3]
+        && a.side[0] == b.side[0] && a.side[1] == b.side[1] && a.side[2] == b.side[2] && a.side[3] == b.side[3]
 }
